@@ -108,3 +108,122 @@ Proof. exact holder_step. Qed.
 Check c10_holder_step.
 Print Assumptions c10_holder_step.
 
+
+(* ---- ReadBackoff: nil exactly for the closed class, bounds, ramp-up ---- *)
+(* C10 — additions for props/C10.v: the last sentence, "ReadBackoff yields a channel that
+   closes within the configured bounds for every non-fatal error"
+   (coq/theories/BackoffBounds.v).  To be appended to coq/props/C10.v; needs
+     From MQ Require Import BackoffBounds.
+   RetWait kind ms: kind 0 the released channel, 1 the nil channel, 2 a timer of ms > 0
+   milliseconds.  e: the class bit-vector of the error ReadSlices returned last;
+   model_errs (ConnectProofs): every error value the model produces. *)
+From MQ Require Import Session ConnectProofs BackoffBounds.
+
+(* the switch of ReadBackoff, class by class, in the order of client.go: nil error or BigMessage pending -> released; ErrClosed -> nil; readConn set (Persistence error) -> 1000 ms; refusal -> ReconnectWaitMax; else min(max(reconnectWait, Min), Max), and reconnectWait := twice that *)
+Theorem c10_backoff_cases : ltac:(let t := type of backoff_cases in exact t).
+Proof. exact backoff_cases. Qed.
+Check c10_backoff_cases.
+Print Assumptions c10_backoff_cases.
+
+(* the nil channel is returned iff the error is non-nil, no BigMessage is pending and errors.Is(err, ErrClosed) *)
+Theorem c10_backoff_nil_iff : ltac:(let t := type of backoff_nil_iff in exact t).
+Proof. exact backoff_nil_iff. Qed.
+Check c10_backoff_nil_iff.
+Print Assumptions c10_backoff_nil_iff.
+
+(* among the error values of the model exactly E_closed Is ErrClosed *)
+Theorem c10_closed_class_unique : ltac:(let t := type of closed_class_unique in exact t).
+Proof. exact closed_class_unique. Qed.
+Print Assumptions c10_closed_class_unique.
+
+(* hence: for the errors the model produces, nil iff ErrClosed (fatal) *)
+Theorem c10_backoff_nil_iff_closed : ltac:(let t := type of backoff_nil_iff_closed in exact t).
+Proof. exact backoff_nil_iff_closed. Qed.
+Check c10_backoff_nil_iff_closed.
+Print Assumptions c10_backoff_nil_iff_closed.
+
+(* documented special case: with a BigMessage pending there is no backoff whatever the error *)
+Theorem c10_backoff_big_pending : ltac:(let t := type of backoff_big_pending in exact t).
+Proof. exact backoff_big_pending. Qed.
+Print Assumptions c10_backoff_big_pending.
+
+(* always a channel answer; a timer is never zero *)
+Theorem c10_backoff_shape : ltac:(let t := type of backoff_shape in exact t).
+Proof. exact backoff_shape. Qed.
+Print Assumptions c10_backoff_shape.
+
+(* every answer other than the nil channel closes within max(1000 ms, ReconnectWaitMax), for every client state and every error bit-vector *)
+Theorem c10_backoff_upper : ltac:(let t := type of backoff_upper in exact t).
+Proof. exact backoff_upper. Qed.
+Check c10_backoff_upper.
+Print Assumptions c10_backoff_upper.
+
+(* offline, non-fatal, ANY configuration values: min(Min, Max) <= wait <= Max *)
+Theorem c10_backoff_reconnect_bounds_raw : ltac:(let t := type of backoff_reconnect_bounds_raw in exact t).
+Proof. exact backoff_reconnect_bounds_raw. Qed.
+Print Assumptions c10_backoff_reconnect_bounds_raw.
+
+(* offline, non-fatal, Min <= Max (newClient's normalisation): ReconnectWaitMin <= wait <= ReconnectWaitMax; a refusal waits exactly the maximum *)
+Theorem c10_backoff_reconnect_bounds : ltac:(let t := type of backoff_reconnect_bounds in exact t).
+Proof. exact backoff_reconnect_bounds. Qed.
+Check c10_backoff_reconnect_bounds.
+Print Assumptions c10_backoff_reconnect_bounds.
+
+(* the error came from the Persistence (connection still installed): exactly one second *)
+Theorem c10_backoff_store_second : ltac:(let t := type of backoff_store_second in exact t).
+Proof. exact backoff_store_second. Qed.
+Print Assumptions c10_backoff_store_second.
+
+(* the sentence of the property, over the error values of the model: every non-nil error other than E_closed gets a channel that closes, within the bounds of its case *)
+Theorem c10_backoff_every_nonfatal : ltac:(let t := type of backoff_every_nonfatal in exact t).
+Proof. exact backoff_every_nonfatal. Qed.
+Check c10_backoff_every_nonfatal.
+Print Assumptions c10_backoff_every_nonfatal.
+
+(* ramp-up: of two consecutive ramp-up answers the second waits min(max(2 * first, Min), Max) >= the first ... *)
+Theorem c10_backoff_ramp : ltac:(let t := type of backoff_ramp in exact t).
+Proof. exact backoff_ramp. Qed.
+Check c10_backoff_ramp.
+Print Assumptions c10_backoff_ramp.
+
+(* ... = min(2 * first, Max) with Min <= Max: exponential up to the maximum *)
+Theorem c10_backoff_ramp_doubles : ltac:(let t := type of backoff_ramp_doubles in exact t).
+Proof. exact backoff_ramp_doubles. Qed.
+Print Assumptions c10_backoff_ramp_doubles.
+
+(* answers of the other classes leave the ramp-up alone *)
+Theorem c10_backoff_other_keeps_rwait : ltac:(let t := type of backoff_other_keeps_rwait in exact t).
+Proof. exact backoff_other_keeps_rwait. Qed.
+Print Assumptions c10_backoff_other_keeps_rwait.
+
+(* a successful connect resets reconnectWait, a failed one keeps it (every world, every tape) *)
+Theorem c10_connect_rwait : ltac:(let t := type of connect_rwait in exact t).
+Proof. exact connect_rwait. Qed.
+Check c10_connect_rwait.
+Print Assumptions c10_connect_rwait.
+
+(* consecutive failed connects: ReadSlices of an offline client returns the connect error and keeps reconnectWait *)
+Theorem c10_offline_read_slices_rwait : ltac:(let t := type of offline_read_slices_rwait in exact t).
+Proof. exact offline_read_slices_rwait. Qed.
+Print Assumptions c10_offline_read_slices_rwait.
+
+(* after a success the ramp-up starts from ReconnectWaitMin again *)
+Theorem c10_backoff_after_success : ltac:(let t := type of backoff_after_success in exact t).
+Proof. exact backoff_after_success. Qed.
+Print Assumptions c10_backoff_after_success.
+
+(* ReadBackoff performs no I/O (the world, log included, is unchanged) ... *)
+Theorem c10_backoff_no_io : ltac:(let t := type of backoff_no_io in exact t).
+Proof. exact backoff_no_io. Qed.
+Check c10_backoff_no_io.
+Print Assumptions c10_backoff_no_io.
+
+(* ... and changes nothing of the client but reconnectWait *)
+Theorem c10_backoff_client_frame : ltac:(let t := type of backoff_client_frame in exact t).
+Proof. exact backoff_client_frame. Qed.
+Print Assumptions c10_backoff_client_frame.
+
+(* non-vacuity, Min 1 s, Max 5 s: dial error 1 s, EOF 2 s, refusal 5 s (ramp-up untouched), dial error 4 s, 5 s; ErrClosed nil; Persistence error 1 s; BigMessage pending released *)
+Example c10_backoff_example : ltac:(let t := type of backoff_example in exact t).
+Proof. exact backoff_example. Qed.
+Print Assumptions c10_backoff_example.
